@@ -45,7 +45,8 @@ MODELS = [
 ]
 JAX_MODELS = ["JAX:neo_hooke", "JAX:mooney_rivlin", "JAX:yeoh", "JAX:third_order_deformation", "JAX:blatz_ko", "JAX:storakers", "JAX:extended_tube", "JAX:miehe_goektepe_lulei"]
 HISTORY = ("OgdenRoxburgh", "OgdenRoxburghAD", "Plastic", "Visco", "MAD:morph", "TF:Visco", "NI:Visco", "TF:OgdenRoxburgh", "NI:OgdenRoxburgh")
-MIXED = ("ThreeField", "NearlyIncompressible", "NearlyIncompressibleAD", "TF:Visco", "NI:Visco", "TF:OgdenRoxburgh", "NI:OgdenRoxburgh")
+MIXED = ("ThreeField", "NearlyIncompressible", "NearlyIncompressibleAD", "TF:Visco", "NI:Visco", "TF:OgdenRoxburgh", "NI:OgdenRoxburgh", "TF:NeoHookeCompressible", "TF:AD:saint_venant_kirchhoff", "TF:LinearElasticLargeStrain", "TF:AD:storakers")
+TF_PLAIN = ("TF:NeoHookeCompressible", "TF:AD:saint_venant_kirchhoff", "TF:LinearElasticLargeStrain", "TF:AD:storakers")
 
 
 # hand-coded models whose parameters are public attributes read at every evaluation
@@ -74,6 +75,9 @@ def draw_model(r, name):
         return {"name": name, "p": {"lmbda": round(2 * mu, 4), "mu": mu, "sy": rf(r, 0.02, 0.08), "K": rf(r, 0.05, 0.5)}}
     if name == "Visco":
         return {"name": name, "p": {"mu": mu, "bulk": bulk, "mu_v": rf(r, 0.2, 1.0), "eta": rf(r, 0.5, 5), "dtime": rf(r, 0.1, 1)}}
+    if name in TF_PLAIN:
+        # three-field wrapper around a material whose energy is not split into isochoric and volumetric parts
+        return {"name": name, "p": draw_model(r, name[3:])["p"]}
     if name in ("TF:Visco", "NI:Visco"):
         return {"name": name, "p": {"mu": mu, "bulk": bulk, "mu_v": rf(r, 0.2, 1.0), "eta": rf(r, 0.5, 5), "dtime": rf(r, 0.1, 1)}}
     if name in ("TF:OgdenRoxburgh", "NI:OgdenRoxburgh"):
@@ -123,7 +127,7 @@ def generate(seed, tier, k):
         doc = gen.gen_job(seed, profile=r.choice(["history", "general"]))
         doc["c03"] = {"mode": "job", "probe_seed": r.randrange(1 << 30), "rate": 0.25}
         return gen.maybe_units(doc, any_force=True)
-    name = r.choice(MODELS + list(HISTORY) * 2 + ["NearlyIncompressible", "ThreeField"] * 2)
+    name = r.choice(MODELS + list(HISTORY) * 2 + ["NearlyIncompressible", "ThreeField"] * 2 + list(TF_PLAIN))
     # jax models cost ~2 s of jit per run: a few in the quick tier, a fifth of the thorough tier
     if r.random() < (0.2 if tier == "thorough" else 0.01):
         name = r.choice(JAX_MODELS)
@@ -208,6 +212,8 @@ def build(spec):
             return mu * tm.special.dev(J ** (-2 / 3) * b) + bulk * (J - 1) * J * tm.base.eye(b)
 
         return fem.MaterialAD(kirchhoff, mu=p["mu"], bulk=p["bulk"])
+    if name in TF_PLAIN:
+        return fem.ThreeFieldVariation(build({"name": name[3:], "p": p}))
     if name in ("TF:Visco", "NI:Visco"):
         # mixed wrappers around an inner material whose state update is a rate equation
         visco = fem.Hyperelastic(fem.finite_strain_viscoelastic, mu=p["mu_v"], eta=p["eta"], dtime=p["dtime"], nstatevars=6)
